@@ -44,14 +44,14 @@ func spec_render(s Snippet, ctx context.Context) string {
 //@   note interface method (implemented by Args and *arg, whose iterators are verified to do nothing but yield their bindings): ASSUMED for other implementations - handing over the bindings has no side effect
 
 //@ func Args.Args
-//@   props C09 C01 C03
+//@   props C09 C01 C03:frame
 //@   lit 1 ensures !stopped ==> len(out) == len(args) && len(out2) == len(out) && (forall j int :: 0 <= j && j < len(out) ==> has(args, out[j]) && out2[j] == args[out[j]]) && (forall k string :: has(args, k) ==> elem(k, out))
 //@   loop 1 invariant !stopped && eq(out, ks1[:it1]) && len(out2) == len(out)
 //@   loop 1 invariant forall j int :: 0 <= j && j < len(out2) ==> out2[j] == args[out[j]]
 //@   note the map form of template arguments hands EVERY entry to T() exactly once with its value - entries bound to nil included (a nil binding renders nothing; only an UNBOUND placeholder may panic)
 
 //@ func arg.Args
-//@   props C09 C01 C03
+//@   props C09 C01 C03:frame
 //@   requires a != nil
 //@   lit 1 ensures !stopped ==> len(out) == 1 && len(out2) == 1 && out[0] == a.name && out2[0] == a.snippet
 
@@ -73,13 +73,13 @@ func Spec_templateFormat(s Snippet) string {
 }
 
 //@ func Sprintf
-//@   props C09 C01 C03
+//@   props C09 C01 C03:frame
 //@   assigns nothing
 //@   ensures spec_printerOf(result) != nil && fresh(spec_printerOf(result)) && spec_printerOf(result).fmt == fmt && eq(spec_printerOf(result).args, args)
 //@   note the constructor keeps the format and the argument list as given, for EVERY argument count: a format without arguments is still a format (`%%` renders as one percent sign, a verb without argument panics) - it is never handed out as literal text
 
 //@ func T
-//@   props C09 C01 C03
+//@   props C09 C01 C03:frame
 //@   assigns nothing
 //@   ensures spec_templateOf(result) != nil && fresh(spec_templateOf(result)) && spec_templateOf(result).format == fmt && spec_templateOf(result).args != nil
 //@   loop 1 invariant t != nil && t.format == fmt && t.args != nil && fresh(t)
@@ -154,7 +154,7 @@ func spec_exposerOf(s Snippet) *pkgExposer { x, _ := s.(*pkgExposer); return x }
 //@   ensures result == (i.typeName == nil)
 
 //@ func Block.Frag
-//@   props C09 C01 C04:frame C03
+//@   props C09 C01 C04:frame C03:frame
 //@   lit 1 ordered
 //@   lit 1 yields string(v)
 
@@ -173,14 +173,14 @@ func spec_renderAll(cs []Snippet, ctx context.Context, n int) string {
 }
 
 //@ func Snippets.Frag
-//@   props C09 C01 C04:frame C03
+//@   props C09 C01 C04:frame C03:frame
 //@   lit 1 ordered
 //@   lit 1 yields spec_renderAll(spec_yielded(f), ctx, len(spec_yielded(f)))
 //@   loop 1 invariant !stopped && outText == spec_renderAll(ys1, ctx, it1)
 //@   loop 2 invariant !stopped && outText == spec_renderAll(ys1, ctx, it1) + spec_concatN(ys2, it2)
 
 //@ func fn.Frag
-//@   props C09 C04:frame C01 C03
+//@   props C09 C04:frame C01 C03:frame
 //@   lit 1 ordered
 //@   requires f != nil
 //@   lit 1 nopanic
@@ -260,7 +260,7 @@ func spec_args(t *template) map[string]Snippet {
 func spec_src(t *template) []rune { return []rune(strings.TrimLeft(t.format, "\n")) }
 
 //@ func template.Frag
-//@   props C09 C01 C04:frame C03
+//@   props C09 C01 C04:frame C03:frame
 //@   lit 1 ordered
 //@   requires t != nil
 //@   lit 1 yields spec_tmpl(old(spec_src(t)), 0, old(spec_args(t)), ctx)
@@ -282,7 +282,7 @@ func spec_src(t *template) []rune { return []rune(strings.TrimLeft(t.format, "\n
 // ---- Sprintf(format, args...) (C09) ----
 
 //@ func pkgExposer.Frag
-//@   props C05 C09 C04:frame C01 C03
+//@   props C05 C09 C04:frame C01 C03:frame
 //@   lit 1 ordered
 //@   requires i != nil
 //@   assigns *
@@ -303,7 +303,7 @@ func spec_src(t *template) []rune { return []rune(strings.TrimLeft(t.format, "\n
 //@   note frame, proved on the returned iterator literal too: rendering an identifier stores nothing into ANY snippet value (no memo of a resolved name: a snippet value rendered into two files consults each file's own import table, C05) and runs no user code in map order. References given as text go through ParseRef (one split point for the whole naming system, C15/C03); WHAT the namer answers for the parsed reference is the contract of rawNamer.Name. An unsupported operand panics (stated, not excluded).
 
 //@ func value.Frag
-//@   props C05:frame C09 C04:frame C01 C03
+//@   props C05:frame C09 C04:frame C01 C03:frame
 //@   requires v != nil
 //@   assigns *
 //@   effects
@@ -375,7 +375,7 @@ func spec_spfPanics(R []rune, i int, k int, args []any) bool {
 }
 
 //@ func printer.Frag
-//@   props C09 C01 C04:frame C03
+//@   props C09 C01 C04:frame C03:frame
 //@   lit 1 ordered
 //@   requires p != nil
 //@   lit 1 yields spec_spf(old([]rune(p.fmt)), 0, 0, old(p.args), ctx)
